@@ -157,7 +157,7 @@ func c05case(s *Sexp) string {
 
 func init() {
 	handlers["C05"] = c05case
-	handlers["C07"] = c05case
-	handlers["C20"] = c05case
+	handlers["C07"] = queueOrDequeCase // c06.go: dispatches on the head symbol
+	handlers["C20"] = queueOrDequeCase
 	pubsub.VerifSetHook(schedHook)
 }
